@@ -13,7 +13,7 @@ from mzverif.core import Sub, Violation, call, require
 
 ID = "C12"
 LEVEL = "exploration"
-TECHNIQUE = "Hypothesis over generator calls biased to constrained DFS / sparse percolation + corridor-like grids beyond 128 with start cells in every container; oracle = component, tree and degree facts recomputed from the raw connection bits by an independent graph model"
+TECHNIQUE = "Hypothesis over generator calls biased to constrained DFS / sparse percolation + corridor-like grids beyond 128 with start cells in every container; oracle = component, tree and degree facts recomputed from the raw connection bits by an independent graph model; endpoint draws under options followed by a re-verification of the metadata"
 RULE = (
     "case = (generator, r, c, kwargs, numpy seed, python seed), strategy biased towards accessible_cells small/fractional, small "
     "max_tree_depth, do_forks=False, randomized_stack and percolation with small p. Non-trivial = the maze is not fully connected "
